@@ -135,3 +135,158 @@ Example ex_truncate_three_answers :
   msg_okb2 (truncate t_three 512) = true /\
   (exists w, pack_msg (truncate t_three 512) = Ok w /\ lenN w = 474).
 Proof. exact t_three_facts. Qed.
+
+
+(* ---------------- the first dropped record would not have fitted ---------------- *)
+(* (proofs in Proofs/TruncateTightProofs.v)
+
+   [step_r a r] is one step of Msg.Len over a record: a = (offset, suffix set);
+   [run rrs j a] = the state of Msg.Len after the first j records of rrs;
+   [questions_len qs] = that state after header and question section;
+   [all_len m an ns ex] = the running length after header, questions of m and the
+   records an, ns, ex;  [rest_extra m] = the additional section without the OPT
+   that was set aside;  [trunc_budget m size] = max(size, 512) - Len(OPT);
+   [set_aside_exact m]: the OPT record set aside (if any) is owned by the root
+   and its len() walks no other name, so it measures Len(OPT) wherever it stands;
+   [next_dropped m size] = the message Truncate leaves with one more record, the
+   first one it dropped, put back in its place (None when nothing was dropped). *)
+From Dns Require Import Proofs.TruncateTightProofs.
+
+(* the counting form on truncateLoop: with j records kept, the running length
+   after each of the first j - 1 was strictly below size, and exactly one of
+   (over)  record j exists and the running length INCLUDING it (same offsets
+           and suffix set as Msg.Len) exceeds size: no slack, no off-by-one;
+   (equal) the running length including record j - 1 is exactly size and that
+           record IS kept;
+   (end)   every record is kept and the running length is returned *)
+Theorem truncate_loop_stops_exactly :
+  forall (rrs : list rr) (size : Z) (L : N) (c : option lset) (i : nat) (l' : Z) (k : nat) (c' : option lset),
+    truncate_loop rrs size (Z.of_N L) c i = (l', k, c') ->
+    exists j, k = (i + j)%nat /\ (j <= length rrs)%nat /\
+      (forall j', (0 < j' < j)%nat -> (Z.of_N (fst (run rrs j' (L, c))) < size)%Z) /\
+      ( ((j < length rrs)%nat /\ ((0 < j)%nat -> (Z.of_N (fst (run rrs j (L, c))) < size)%Z) /\
+         (size < Z.of_N (fst (run rrs (S j) (L, c))))%Z /\ l' = size /\ c' = snd (run rrs (S j) (L, c)))
+      \/ ((0 < j)%nat /\ Z.of_N (fst (run rrs j (L, c))) = size /\ l' = size /\ c' = snd (run rrs j (L, c)))
+      \/ (j = length rrs /\ ((0 < j)%nat -> (Z.of_N (fst (run rrs j (L, c))) < size)%Z) /\
+          l' = Z.of_N (fst (run rrs j (L, c))) /\ c' = snd (run rrs j (L, c))) ).
+Proof. exact truncate_loop_stop. Qed.
+Print Assumptions truncate_loop_stops_exactly.
+
+(* every record adds to the running length (its header alone is 11 octets), so
+   after an exact stop no further record fits *)
+Theorem every_record_adds_to_the_running_length :
+  forall (r : rr) (L : N) (c : option lset), 10 < fst (len_rr r L c).
+Proof. exact len_rr_pos. Qed.
+Print Assumptions every_record_adds_to_the_running_length.
+
+(* through the three sections, for ANY message without TSIG that does not fit
+   uncompressed: in the first section that loses a record (all earlier sections
+   are kept whole, all later ones emptied), the running length of Msg.Len over
+   header, questions, the kept records and the first dropped record exceeds the
+   budget max(size, 512) - Len(OPT) *)
+Theorem first_dropped_record_exceeds_the_budget :
+  forall (m : msg) (size : Z),
+    has_tsig m = false -> (trunc_size size < Z.of_N (msg_len_with m None))%Z ->
+    let t := truncate m size in
+    exists na nn ne,
+      t = set_sections m (m_tc t) true (firstn na (m_answer m)) (firstn nn (m_ns m))
+                       (firstn ne (rest_extra m) ++ opt_list (set_aside m)) /\
+      (na <= length (m_answer m))%nat /\ (nn <= length (m_ns m))%nat /\ (ne <= length (rest_extra m))%nat /\
+      ((na < length (m_answer m))%nat ->
+         nn = 0%nat /\ ne = 0%nat /\
+         (trunc_budget m size < Z.of_N (all_len m (firstn (S na) (m_answer m)) [] []))%Z) /\
+      (na = length (m_answer m) -> (nn < length (m_ns m))%nat ->
+         ne = 0%nat /\
+         (trunc_budget m size < Z.of_N (all_len m (m_answer m) (firstn (S nn) (m_ns m)) []))%Z) /\
+      (na = length (m_answer m) -> nn = length (m_ns m) -> (ne < length (rest_extra m))%nat ->
+         (trunc_budget m size < Z.of_N (all_len m (m_answer m) (m_ns m) (firstn (S ne) (rest_extra m))))%Z).
+Proof. exact first_dropped_over_budget. Qed.
+Print Assumptions first_dropped_record_exceeds_the_budget.
+
+(* the clause of C09 on Len(): the message made of the kept records, the first
+   dropped record and the OPT record measures more than max(size, 512).  No
+   restriction on the content of the records: only the OPT must be a real one *)
+Theorem first_dropped_record_would_not_have_fitted :
+  forall (m : msg) (size : Z) (m' : msg),
+    has_tsig m = false -> set_aside_exact m = true -> next_dropped m size = Some m' ->
+    (trunc_size size < Z.of_N (msg_len m'))%Z.
+Proof. exact first_dropped_does_not_fit. Qed.
+Print Assumptions first_dropped_record_would_not_have_fitted.
+
+(* [next_dropped] is defined whenever a record was dropped *)
+Theorem no_first_dropped_record_only_if_nothing_dropped :
+  forall (m : msg) (size : Z),
+    has_tsig m = false -> next_dropped m size = None ->
+    m_answer (truncate m size) = m_answer m /\ m_ns (truncate m size) = m_ns m /\
+    length (m_extra (truncate m size)) = length (m_extra m).
+Proof. exact next_dropped_none. Qed.
+Print Assumptions no_first_dropped_record_only_if_nothing_dropped.
+
+(* ... and on the packed octets.  PARTIAL: C08 proves Len() = len(Pack()) for
+   plain messages packed WITHOUT compression and Len() >= len(Pack()) with it;
+   the message here is packed WITH compression, so exactness of Len() for it is
+   the named hypothesis [len_exact_compressed m'] :=
+     forall w, pack_msg m' = Ok w -> lenN w = msg_len m'
+   (instances below).  Full clause: the same with [len_exact_compressed m']
+   replaced by: m' consists of escape-free records of the common types (plus the
+   OPT).  Missing: the converse of C08's joint invariant (every key of the
+   packer's map is a suffix in the length walk's set, equal offsets) *)
+Theorem first_dropped_record_would_not_have_fitted_when_packed_partial :
+  forall (m : msg) (size : Z) (m' : msg) (w : bytes),
+    has_tsig m = false -> set_aside_exact m = true -> next_dropped m size = Some m' ->
+    len_exact_compressed m' -> pack_msg m' = Ok w ->
+    (trunc_size size < Z.of_N (lenN w))%Z.
+Proof. exact first_dropped_does_not_fit_packed. Qed.
+Print Assumptions first_dropped_record_would_not_have_fitted_when_packed_partial.
+
+(* the hypothesis on the OPT cannot be dropped: an OPT record owned by
+   example.org. is budgeted at its uncompressed Len (23) but takes 12 octets;
+   Truncate(512) drops the third answer although the message with it measures
+   and packs to 511 octets *)
+Theorem a_compressible_opt_owner_leaves_slack :
+  has_tsig t_named = false /\ set_aside_ok t_named = true /\ set_aside_exact t_named = false /\
+  msg_okb2 t_named = true /\
+  length (m_answer (truncate t_named 512)) = 2%nat /\
+  next_dropped t_named 512 = Some t_named_next /\
+  m_answer t_named_next = m_answer t_named /\ m_extra t_named_next = m_extra t_named /\
+  msg_len t_named_next = 511 /\ packed_len t_named_next = Some 511 /\ trunc_size 512 = 512%Z.
+Proof. exact first_dropped_does_not_fit_refuted. Qed.
+Print Assumptions a_compressible_opt_owner_leaves_slack.
+
+(* the clause holds of the FIRST dropped record only: (a) a later, smaller
+   record of the same section and (b) a record of a later section are dropped
+   although the kept records, that record and the OPT take 494 <= 512 octets *)
+Theorem later_dropped_records_may_have_fitted :
+  (has_tsig t_four = false /\ set_aside_exact t_four = true /\
+   length (m_answer (truncate t_four 512)) = 2%nat /\
+   msg_len t_four_alt = 494 /\ packed_len t_four_alt = Some 494) /\
+  (has_tsig t_later = false /\ set_aside_exact t_later = true /\
+   length (m_answer (truncate t_later 512)) = 2%nat /\ m_extra (truncate t_later 512) = [t_opt 0] /\
+   msg_len t_later_alt = 494 /\ packed_len t_later_alt = Some 494).
+Proof. exact every_dropped_record_does_not_fit_refuted. Qed.
+Print Assumptions later_dropped_records_may_have_fitted.
+
+(* non-vacuity: three 200-octet TXT answers and an OPT, Truncate(512): the third
+   answer is dropped; put back, the message measures and packs to 689 > 512;
+   Len() is exact for that message *)
+Example ex_first_dropped_three_answers :
+  has_tsig t_three = false /\ set_aside_exact t_three = true /\
+  next_dropped t_three 512 = Some t_three_next /\
+  length (m_answer (truncate t_three 512)) = 2%nat /\
+  m_answer t_three_next = m_answer t_three /\ m_extra t_three_next = m_extra t_three /\
+  msg_len t_three_next = 689 /\ packed_len t_three_next = Some 689 /\
+  trunc_budget t_three 512 = 497%Z.
+Proof. exact t_three_next_facts. Qed.
+Example ex_len_exact_compressed_instance : len_exact_compressed t_three_next.
+Proof. exact t_three_next_exact. Qed.
+(* the early stop at l = size: two answers and the OPT are exactly 512 octets, the
+   second answer is kept, the third is never measured and would not have fitted *)
+Example ex_exact_stop :
+  has_tsig t_exact = false /\ set_aside_exact t_exact = true /\
+  msg_len (truncate t_exact 512) = 512 /\ packed_len (truncate t_exact 512) = Some 512 /\
+  length (m_answer (truncate t_exact 512)) = 2%nat /\
+  next_dropped t_exact 512 = Some t_exact_next /\
+  msg_len t_exact_next = 727 /\ packed_len t_exact_next = Some 727.
+Proof. exact t_exact_facts. Qed.
+Example ex_len_exact_compressed_instance2 : len_exact_compressed t_exact_next.
+Proof. exact t_exact_next_exact. Qed.
